@@ -83,17 +83,21 @@ pub mod stream {
         use std::pin::Pin;
         use std::task::{Context, Poll};
         pub const FU_CAP: usize = 4;
-        pub struct FuturesUnordered<F> {
-            pub slots: [Option<Pin<Box<F>>>; FU_CAP],
+        /// The slots are TYPE-ERASED (`dyn Future`): the container's layout then does not mention `F`, so a local
+        /// `FuturesUnordered<{async block containing select!}>` that is never filled (QuorumWaiter's `pending`) does not drag
+        /// that coroutine's nested union type into every byte-level access of the enclosing frame.
+        pub struct FuturesUnordered<F: Future> {
+            pub slots: [Option<Pin<Box<dyn Future<Output = F::Output> + Send>>>; FU_CAP],
             pub n: usize,
+            _f: std::marker::PhantomData<fn() -> F>,
         }
-        impl<F> Unpin for FuturesUnordered<F> {}
-        impl<F> Default for FuturesUnordered<F> {
+        impl<F: Future> Unpin for FuturesUnordered<F> {}
+        impl<F: Future> Default for FuturesUnordered<F> {
             fn default() -> Self {
-                Self { slots: [None, None, None, None], n: 0 }
+                Self { slots: [None, None, None, None], n: 0, _f: std::marker::PhantomData }
             }
         }
-        impl<F: Future> FuturesUnordered<F> {
+        impl<F: Future + Send + 'static> FuturesUnordered<F> {
             pub fn new() -> Self {
                 Self::default()
             }
@@ -147,7 +151,7 @@ pub mod stream {
                 Poll::Pending
             }
         }
-        impl<F: Future> std::iter::FromIterator<F> for FuturesUnordered<F> {
+        impl<F: Future + Send + 'static> std::iter::FromIterator<F> for FuturesUnordered<F> {
             fn from_iter<I: IntoIterator<Item = F>>(it: I) -> Self {
                 let mut s = Self::default();
                 for f in it {
